@@ -671,6 +671,8 @@ class Stage:
         der_symbols = [self._signals[e].der for e in symbols if e in self._signals]
         if depends_on(expr, self.u):
             raise Exception("Dependency on controls not supported yet for stage.der")
+        if depends_on(expr, self.z):
+            raise Exception("Dependency on algebraic variables not supported for stage.der")
         ode = self._ode()
         # quadrature states are states as well: their declared right-hand side is the "quad" output
         if depends_on(expr,self.t) or nominal_symbols:
